@@ -130,6 +130,44 @@ def run_config(cfg, res):
     if pairs:
       res.sample(dict(name=name, tags=pairs, spellings=nsp, forms=sorted(accepted)[:2]), cap=3)
 
+  def check_string(x, label):
+    """Any carbon-syntax string, judged against the reference reading (history independent by construction)."""
+    if reft.is_openmetrics_shaped(x):
+      return
+    ref = reft.ref_parse_carbon(x)
+    n1, ok = N(x)
+    res.count('reference_parser_evaluations')
+    if ref is None:
+      if n1 != x:
+        res.violation('raw-fallback/%s' % label, 'path %r violates the tag rules but normalises to %r instead of staying as received' % (x, n1), dict(path=x))
+      else:
+        st, rl_ = stored_as(x)
+        if st != x or rl_ != x:
+          res.violation('processor-name/raw-fallback', 'rule-violating path %r stored as %r, relayed as %r' % (x, st, rl_), dict(path=x))
+      return
+    metric, pairs = ref
+    if len(set(k for k, _ in pairs)) != len(pairs):
+      return        # duplicate keys: excluded from "tag sets"
+    if not ok:
+      res.count('rejected_spellings_of_valid_sets')
+      return
+    if ';' in metric or (metric[-2:] == '"}' and '{' in metric):
+      return
+    head, tl = reft.split_canonical(n1)
+    exp = sorted((k, v) for k, v in pairs if k != 'name')
+    if head != metric.lstrip('~') or sorted(tl) != exp:
+      res.violation('canonical-content/%s' % label, 'path %r normalises to %r, which is not metric %r with tags %r' % (x, n1, metric, exp), dict(path=x))
+
+  def rotations(name, pairs):
+    """Orderings in which the metric is NOT written first: each is either a different series or a rule violation."""
+    segs = [name] + ['%s=%s' % kv for kv in pairs]
+    out = []
+    for i in range(1, len(segs)):
+      out.append(';'.join(segs[i:] + segs[:i]))
+    if len(segs) >= 2:
+      out.append(';'.join(reversed(segs)))
+    return out
+
   A = ALPHA
   if cfg['mode'] == 'exhaustive':
     f = cfg['first']
@@ -142,6 +180,8 @@ def run_config(cfg, res):
       for k in keysp:
         for v in valsp:
           check(nm, [(k, v)], False)
+          for x in rotations(nm, [(k, v)]):
+            check_string(x, 'rotation')
   else:
     r = gen.rng(cfg['seed'], 'C18', cfg['shard'])
     ncases = 3000 if cfg['tier'] == 'quick' else 60000
@@ -166,6 +206,10 @@ def run_config(cfg, res):
           ks.append(k)
       pairs = [(k, word()) for k in ks]
       check(nm, pairs, r.random() < 0.2)
+      # the same segments in orders that do not start with the metric, right after the well-formed spellings were parsed
+      for x in rotations(nm, pairs):
+        check_string(x, 'rotation')
+      check_string(reft.carbon_spelling(nm, pairs), 'plain')
 
 
 def classify(v):
